@@ -88,6 +88,34 @@ pub fn explore(opts: &Opts) -> Explored {
             check_layout(l, "construct", &case, d, &v, got);
             l.sample(&case);
         }
+        // the constructor that shares a caller-held buffer
+        let case = || format!("from((dims,Rc<values>)) {}", name);
+        if l.want(&case) {
+            let got = run_catch(|| {
+                let buf = std::rc::Rc::new(fl(&v));
+                let a = Array::from((d.clone(), std::rc::Rc::clone(&buf)));
+                assert!(buf.len() == n);
+                (a.dimensions().to_vec(), a.values().to_vec())
+            });
+            check_layout(l, "construct", &case, d, &v, got);
+            for z in 0..d.len() {
+                let mut dz = d.clone();
+                dz[z] = 0;
+                must_refuse(l, "refuse", &case, move || Array::from((dz, std::rc::Rc::new(Vec::<Float>::new()))).dimensions().to_vec());
+            }
+            for delta in [-1i64, 1, 2] {
+                let len = n as i64 + delta;
+                if len < 0 {
+                    continue;
+                }
+                let dd = d.clone();
+                must_refuse(l, "refuse", &case, move || Array::from((dd, std::rc::Rc::new(vec![1.0 as Float; len as usize]))).dimensions().to_vec());
+            }
+            // a zero dimension whose element count happens to "match" (no values at all)
+            let mut dz = d.clone();
+            dz.push(0);
+            must_refuse(l, "refuse", &case, move || Array::from((dz, std::rc::Rc::new(Vec::<Float>::new()))).dimensions().to_vec());
+        }
         let case = || format!("from(vec<float>) n={} (from {})", n, name);
         if l.want(&case) {
             let got = run_catch(|| {
@@ -361,6 +389,27 @@ pub fn explore(opts: &Opts) -> Explored {
                         if x == a {
                             msgs.push(format!("an array whose element {} is {:e} compares equal to one where it is {:e}", f, sv, v[f]));
                         }
+                    }
+                }
+                // zeros of either sign are equal values; a NaN is equal to nothing, not even to itself
+                {
+                    let mut vz = fl(&v);
+                    vz[0] = 0.0;
+                    let mut vn = vz.clone();
+                    vn[0] = -0.0;
+                    let (z, nz) = (Array::from((d.clone(), vz.clone())), Array::from((d.clone(), vn)));
+                    if !(z == nz) || !(nz == z) || z != nz {
+                        msgs.push("arrays that differ only in the sign of a zero compare unequal".to_string());
+                    }
+                    let prod = &nz * &ones;
+                    if !(prod == z) {
+                        msgs.push("a computed negative zero compares unequal to zero".to_string());
+                    }
+                    let mut vq = vz;
+                    vq[n - 1] = Float::NAN;
+                    let q = Array::from((d.clone(), vq));
+                    if q == q.clone() || !(q != q.clone()) {
+                        msgs.push("an array holding a NaN compares equal to its clone (NaN is not equal to itself)".to_string());
                     }
                 }
                 // same values, different dimensions with the same element count
